@@ -185,6 +185,10 @@ def fold_seq(e):
                     return S.call(nm, *[S.lift(v) for v in vals])
         if nm == "len" and len(x.args) == 2 and _seq_items(x.args[1]) is not None:
             return S.lift(len(_seq_items(x.args[1])))
+        if nm in ("sum", "min", "max") and len(x.args) == 2 and _seq_items(x.args[1]) is not None and _seq_items(x.args[1]) \
+                and all(as_int(i) is not None for i in _seq_items(x.args[1])):
+            vals_ = [as_int(i) for i in _seq_items(x.args[1])]
+            return S.lift({"sum": sum, "min": min, "max": max}[nm](vals_))
         if nm in ("numpy.prod", "np.prod") and len(x.args) == 2 and _seq_items(x.args[1]) is not None and all(as_int(i) is not None for i in _seq_items(x.args[1])):
             p_ = 1
             for i in _seq_items(x.args[1]):
